@@ -50,6 +50,8 @@ inductive E where
   | pair (a b : E)
   | fst (a : E)
   | snd (a : E)
+  /-- `char.Width` of a drawn character -/
+  | width (a : E)
   | unknown (src : String)
   deriving Repr, Inhabited
 
@@ -81,6 +83,10 @@ inductive S where
   /-- a call used as a statement -/
   | exprCall (f : String) (a b : E)
   | deferCall (f : String)
+  /-- `for _, x := range ctx.Characters(e) { body }`: the characters a cluster is drawn as (known by their widths) -/
+  | rangeDrawn (x : String) (e : E) (body : B)
+  /-- a call whose effect is outside the editor's state (writing a cell of the surface) -/
+  | effect (what : String)
   | unknown (src : String)
 inductive B where
   | nil
@@ -93,7 +99,7 @@ def E.hasUnknown : E → Bool
   | .unknown _ => true
   | .add a b | .sub a b | .cmp _ a b | .and a b | .or a b | .index a b | .append a b | .call _ a b | .pair a b =>
     a.hasUnknown || b.hasUnknown
-  | .not a | .nonEmpty a | .len a | .str a | .chars a | .runes a | .fst a | .snd a => a.hasUnknown
+  | .not a | .nonEmpty a | .len a | .str a | .chars a | .runes a | .fst a | .snd a | .width a => a.hasUnknown
   | .slice a b c | .insert a b c | .insert1 a b c => a.hasUnknown || b.hasUnknown || c.hasUnknown
   | _ => false
 
@@ -103,7 +109,7 @@ def S.hasUnknown : S → Bool
   | .assign _ e | .addAssign _ e | .subAssign _ e | .write _ e | .ret e => e.hasUnknown
   | .ite c t e => c.hasUnknown || t.hasUnknown || e.hasUnknown
   | .loop c p b => c.hasUnknown || p.hasUnknown || b.hasUnknown
-  | .range _ e b => e.hasUnknown || b.hasUnknown
+  | .range _ e b | .rangeDrawn _ e b => e.hasUnknown || b.hasUnknown
   | .exprCall _ a b | .assignCall _ _ a b | .retCall _ a b => a.hasUnknown || b.hasUnknown
   | .retCallPair _ a b c => a.hasUnknown || b.hasUnknown || c.hasUnknown
   | _ => false
@@ -173,6 +179,8 @@ structure Ctx (A : Type) where
   /-- calls of other translated functions (one layer down): name, arguments, the caller's
       environment ↦ the environment with the receiver's fields updated, the result -/
   call : String → List (V A) → Env A → Option (Env A × V A)
+  /-- `ctx.Characters(cluster)` in `Draw`: the widths of the characters a cluster is drawn as -/
+  drawW : List A → List Int := fun _ => []
 
 def cmpI (op : String) (x y : Int) : V A :=
   if op = "==" then .bool (decide (x = y))
@@ -293,6 +301,7 @@ def evalE [DecidableEq A] (cx : Ctx A) (env : Env A) : E → V A
     if f = "isAlphaNumeric" then (match evalE cx env a with | .str c => .bool (cx.isAlnum c) | _ => .err "isAlphaNumeric")
     else .err ("call in expression: " ++ f)
   | .pair a b => .pair (evalE cx env a) (evalE cx env b)
+  | .width a => (match evalE cx env a with | .num w => .num w | _ => .err "Width")
   | .fst a => (match evalE cx env a with | .pair x _ => x | _ => .err "first result")
   | .snd a => (match evalE cx env a with | .pair _ y => y | _ => .err "second result")
   | .unknown s => .err ("unknown expression " ++ s)
@@ -383,6 +392,11 @@ def execS [DecidableEq A] (cx : Ctx A) : S → Env A → Res A
     (match evalE cx env e with
      | .chars l => rangeN x (fun env => execB cx body env) (l.map V.str) env
      | _ => .err "range")
+  | .rangeDrawn x e body, env =>
+    (match evalE cx env e with
+     | .str c => rangeN x (fun env => execB cx body env) ((cx.drawW c).map V.num) env
+     | _ => .err "range ctx.Characters")
+  | .effect _, env => .ok env
   | .brk, env => .brk env
   | .cont, env => .cont env
   | .retCall f a b, env =>
